@@ -73,6 +73,26 @@ def main():
         val2 = "enclosing"
     else:
         fail(f"check_if_else: unrecognised hint `{h1}` for the `else if` continuation")
+    # ---- run_in_synthesis_mode: how is the produced-placeholders flag treated across nested runs?
+    tc = open(os.path.join(REPO, "crates/samlang-checker/src/typing_context.rs")).read()
+    k = tc.find("fn run_in_synthesis_mode<R>(")
+    if k < 0:
+        fail("typing_context.rs: run_in_synthesis_mode not found")
+    b3 = tc[k:k + 1200]
+    b3 = b3[:b3.find("\n  }\n") + 1] if "\n  }\n" in b3 else b3
+    pos_f = b3.find("let result = f(self);")
+    pos_read = b3.find("let produced = self.produced_placeholders;")
+    if pos_f < 0 or pos_read < pos_f or "(result, produced)" not in b3:
+        fail("run_in_synthesis_mode: `let result = f(self); let produced = self.produced_placeholders; … (result, produced)` not found")
+    saves = re.search(r"let (\w+) = self\.produced_placeholders;", b3[:pos_f])
+    resets = "self.produced_placeholders = false;" in b3[:pos_f]
+    restores = bool(saves) and (f"self.produced_placeholders = {saves.group(1)};" in b3[pos_read:])
+    if saves and restores and not resets:
+        val3 = "saveRestore"
+    elif resets and not restores:
+        val3 = "resetNoRestore"
+    else:
+        fail("run_in_synthesis_mode: unrecognised treatment of produced_placeholders (save=%s reset=%s restore=%s)" % (bool(saves), resets, restores))
     text = f"""import SamVerif.Model.C13Hint
 /-! GENERATED by extract/c13_phase0.py from crates/samlang-checker/src/main_checker.rs — do not edit.
 Re-check test found in Phase 0: `{test}` -/
@@ -83,12 +103,15 @@ def recheckTest : RecheckTest := .{val}
 /-- hint of the `else if` continuation in `check_if_else`: `{h1}` -/
 def elseIfHint : ElseIfHint := .{val2}
 
+/-- treatment of `produced_placeholders` by `run_in_synthesis_mode` (typing_context.rs) -/
+def flagDiscipline : FlagDiscipline := .{val3}
+
 end SamVerif.Hint.Generated
 """
     os.makedirs(os.path.dirname(OUT), exist_ok=True)
     if not os.path.exists(OUT) or open(OUT).read() != text:
         open(OUT, "w").write(text)
-    print(val, val2)
+    print(val, val2, val3)
 
 
 if __name__ == "__main__":
